@@ -24,6 +24,8 @@ pub struct Client {
     pending: VecDeque<Value>,
     server: Option<tokio::task::JoinHandle<()>>,
     pub sent_notifications: usize,
+    /// arrival order of everything received (developer trace): "n:<method>:<file>:v<version>" / "r:<id>"
+    pub arrivals: Vec<String>,
     /// thread name of every thread of this client's runtime (= the server's threads)
     pub thread_tag: String,
 }
@@ -87,7 +89,7 @@ impl Client {
                 }
             }
         });
-        Client { rt, tx: cli_w, rx, next_id: 1, notifications: Vec::new(), pending: VecDeque::new(), server: Some(server), sent_notifications: 0, thread_tag }
+        Client { rt, tx: cli_w, rx, next_id: 1, notifications: Vec::new(), pending: VecDeque::new(), server: Some(server), sent_notifications: 0, arrivals: Vec::new(), thread_tag }
     }
 
     fn send_raw(&mut self, v: &Value) {
@@ -138,6 +140,12 @@ impl Client {
             }
             match self.recv_one(left) {
                 Ok(v) => {
+                    if self.arrivals.len() < 4096 {
+                        self.arrivals.push(match v.get("method").and_then(|m| m.as_str()) {
+                            Some(m) => format!("n:{m}:{}:v{}", v["params"]["uri"].as_str().unwrap_or("").rsplit('/').next().unwrap_or(""), v["params"]["version"]),
+                            None => format!("r:{}", v["id"]),
+                        });
+                    }
                     if v.get("id").and_then(|x| x.as_i64()) == Some(id) && v.get("method").is_none() {
                         break Ok(v);
                     } else if v.get("method").is_some() && v.get("id").is_none() {
